@@ -79,7 +79,7 @@ static void c01_one(uint64_t seed, long idx, const std::string & path, C01Acc & 
         }
         if (idx % 97 == 11) add_incompressible(s, c, seed, idx / 97, idx / 97);
         std::string ctx = " [" + c.str() + "] case=" + std::to_string(idx) + " " + sg::describe_seq(s, 4);
-        std::string e = write_file(path, s, c);
+        std::string e = write_file(path, s, c, nullptr, nullptr, nullptr, 0, idx % 16 == 9);
         if (!e.empty()) { hc::viol("write-session:" + e, ctx); return; }
         {
             File f;
@@ -609,17 +609,22 @@ static int run_c14w(uint64_t seed, long from, long to, const char * dir, const c
             size_t k = 1 + (size_t)(idx / 3) % 3; if (L >= 16 * k && L % k == 0) c.C = (uint32_t)(L / k); else if (L >= 16) c.C = (uint32_t)L;
         }
         std::string path = std::string(dir) + "/" + std::to_string(idx) + "." + tag + ".blf";
-        std::string e = write_file(path, s, c);
+        std::string e = write_file(path, s, c, nullptr, nullptr, nullptr, 0, idx % 4 == 1);      // every fourth file: the level is configured after open(), before the first write
         if (!e.empty()) { hc::viol("write-session:" + e, c.str()); continue; }
         if (repeat) {   // same sequence again in this process after unrelated allocation churn
             twin::Bytes first = twin::load(path);
             { std::vector<std::vector<char>> churn; Rng r(idx); for (int i = 0; i < 200; i++) churn.push_back(std::vector<char>(1 + r.below(5000), (char)r.next())); }
             std::string p2 = path + ".again";
             { twin::Bytes old = first; old.insert(old.end(), first.begin(), first.end()); old.insert(old.end(), 4096, 0x5A); twin::save(p2, old); }   // the path already holds a longer file from an earlier session
-            write_file(p2, s, c, nullptr, nullptr, nullptr, 30);      // same objects, different pacing
+            write_file(p2, s, c, nullptr, nullptr, nullptr, 30, idx % 4 == 1);      // same objects, different pacing
             twin::Bytes second = twin::load(p2); unlink(p2.c_str());
             if (first != second) { size_t off = 0; while (off < first.size() && off < second.size() && first[off] == second[off]) off++; hc::viol("differs-on-repetition-in-process", "offset " + std::to_string(off) + " [" + c.str() + "] case=" + std::to_string(idx) + " " + sg::describe_seq(s, 4)); }
             else repeats_equal++;
+            if (idx % 4 == 1) {     // the same configuration given entirely before open(): the moment a setting is assigned is not part of the configuration
+                std::string p3 = path + ".early"; write_file(p3, s, c); twin::Bytes third = twin::load(p3); unlink(p3.c_str());
+                if (first != third) { size_t off = 0; while (off < first.size() && off < third.size() && first[off] == third[off]) off++; hc::viol("differs-when-level-is-set-after-open", "offset " + std::to_string(off) + " [" + c.str() + "] case=" + std::to_string(idx)); }
+                else repeats_equal++;
+            }
         }
         // sidecar: object boundaries in the uncompressed stream and class names, for attributing a differing offset
         std::ofstream m((path + ".meta").c_str());
